@@ -128,7 +128,7 @@ def work(item):
         return simmpi.World(nranks).run(rankfn)
 
     expect_refusal = bool(set(lN) & set(uN)) and c_zero
-    for ctx, (kind, val) in symx.explore(body, timeout_ms=60000, index_cap=32, maxpaths=200):
+    for ctx, (kind, val) in symx.explore(body, timeout_ms=60000, index_cap=32, maxpaths=400):
         if kind == 'abort':
             if val.inconclusive:
                 res['inconclusive'].append('abort %s %r' % (val.why, item[:9]))
@@ -386,10 +386,11 @@ def main():
     items.append((2, 2, 'nu', 4, 4, (1, 1), (0,), (0,), Fr(-1), True, None))       # ill-posed: must be refused
     items.append((2, 2, 'nu', 4, 4, (1, 1), (0,), (0,), Fr(-1), False, None))      # same BCs with C != 0: accepted (or refused only if C vanishes at all nodes)
     if not quick:
-        items.append((3, 4, 'nu', 6, 6, (3, 1), (0, 1, -1), (0,), Fr(-1), False, None))
+        items.append((3, 4, 'nu', 6, 6, (3, 1), (0, 1, -1), (2,), Fr(-1), False, None))
         items.append((1, 4, 'nu', 2, 4, (2, 2), (), (1,), Fr(1, 2), False, None))
         items.append((3, 3, 'cu', 7, 4, (1, 2), (), (), Fr(-1), True, None))
-        items.append((2, 4, 'nu', 5, 4, (2, 1), (2, -2), (2,), Fr(-1), False, None))
+        items.append((2, 4, 'nu', 5, 4, (2, 1), (2, -2), (1,), Fr(-1), False, None))
+        items.append((1, 2, 'nu', 3, 4, (2, 1), (1, -1), (1,), Fr(-1), False, None))      # pure Neumann on mode 1 with C != 0 (64 funcIsNull paths)
     items.append((2, 3, 'nu', 4, 4, (1, 1), (0,), (), Fr(-1), False, CANARIES[0]))
     items.append((2, 3, 'nu', 4, 4, (2, 1), (), (-1, 1), Fr(-1), False, CANARIES[1]))
     caught = {}
@@ -403,7 +404,7 @@ def main():
         hit = caught.get(cn[0], False)
         run.canaries.append(dict(name=cn[0], detected=hit))
         if not hit:
-            run.inconc('canary not detected: %s' % cn[0])
+            run.canary_miss(cn[0], caught)
     numenv.enable(extra_modules=[(ps, None)])
     run.stubs = sorted(set(numenv.STUBS)) + ['scipy.sparse (diags, slicing, +, -, scalar *, dot): dense object stand-in', 'spsolve: contract (arguments captured, solution = fresh reals)',
                                              'B, C, D, E: uninterpreted functions of r; leggauss nodes/weights taken as the exact values of the doubles numpy returns']
